@@ -116,3 +116,33 @@ def c10_plan_request(valid, unit, v, r):
 
 def c10_attempts(valid, unit, sends, clean):
     return sum(1 for (_, _, data, _) in sends if data == REQUEST)
+
+
+def hostile_variants(valids, rnd, tier):
+    """C01: replies whose part bookkeeping is arbitrary — 2-6 datagrams, each numbered with any small number (0 too,
+    duplicates too, gaps too), `final` on any subset of them and in any position of the arrival order, one or two
+    query ids: whatever the numbers say, the query returns a value."""
+    out = []
+    picks = [v for v in valids if v.case().script and v.case().script[0] != "X"][: (40 if tier == "quick" else 600)]
+    for bi, v in enumerate(picks):
+        c = v.case()
+        n = rnd.randrange(2, 7)
+        qids = [rnd.choice(["7", "7", "7", "12"]) for _ in range(n)]
+        if rnd.random() < 0.6:
+            nums = rnd.sample(range(1, 8), n) if rnd.random() < 0.7 else [rnd.randrange(0, 5) for _ in range(n)]
+        else:
+            nums = list(range(1, n + 1))
+            rnd.shuffle(nums)
+        finals = [rnd.random() < 0.35 for _ in range(n)]
+        if not any(finals):
+            finals[rnd.randrange(n)] = True
+        ds = []
+        for k in range(n):
+            body = b"\\hostname\\h" if k == 0 else f"\\var{k}\\{k}".encode()
+            d = body + f"\\queryid\\{qids[k]}.{nums[k]}".encode()
+            if finals[k]:
+                d = d + b"\\final\\" if rnd.random() < 0.7 else body + b"\\final\\" + f"\\queryid\\{qids[k]}.{nums[k]}".encode()
+            ds.append(d)
+        c.script = [ds + [None]]
+        out.append(c.line(f"{v.id}parts{bi}"))
+    return out
